@@ -84,14 +84,15 @@ class ConvertTimespan(Contract):
     def args(self, I, case):
         ts = SObj(I.E.index.lookup("sigma.correlations:SigmaCorrelationTimespan"), {"spec": I.fresh("spec", "str"), "seconds": I.fresh("seconds", "int"), "count": I.fresh("count", "int"),
                                                                                    "unit": "m" if case != "mapping_miss" else "w"})
-        me = SObj(I.E.index.lookup("sigma.conversion.base:TextQueryBackend"), {"timespan_seconds": case == "seconds", "timespan_mapping": None if case == "no_mapping" else {"m": "min", "h": "hr"}}, lazy=True)
+        mapped = I.fresh("mapped_unit", "str")          # any text - the empty text included (target languages that count in one unit only)
+        me = SObj(I.E.index.lookup("sigma.conversion.base:TextQueryBackend"), {"timespan_seconds": case == "seconds", "timespan_mapping": None if case == "no_mapping" else {"m": mapped, "h": "hr"}}, lazy=True)
         I.ctx.assume(z3.And(ts.fields["seconds"].t >= 0, ts.fields["count"].t >= 0))
-        return {"self": me, "args": [ts], "ts": ts, "case": case}
+        return {"self": me, "args": [ts], "ts": ts, "case": case, "mapped": mapped}
 
     def post(self, I, inp, r):
         ts, case = inp["ts"], inp["case"]
-        want = {"seconds": z3.IntToStr(ts.fields["seconds"].t), "mapping_hit": z3.Concat(z3.IntToStr(ts.fields["count"].t), z3.StringVal("min"))}.get(case, ts.fields["spec"].t)
-        I.ctx.require(mk_str(r) == want, {"seconds": "timespan in seconds", "mapping_hit": "count + mapped unit"}.get(case, "timespan as given"))
+        want = {"seconds": z3.IntToStr(ts.fields["seconds"].t), "mapping_hit": z3.Concat(z3.IntToStr(ts.fields["count"].t), inp["mapped"].t)}.get(case, ts.fields["spec"].t)
+        I.ctx.require(mk_str(r) == want, {"seconds": "timespan in seconds", "mapping_hit": "count + the text the unit is mapped to (whatever it is, also the empty text)"}.get(case, "timespan as given"))
 
     def frame_ok(self, I, inp, obj, name):
         return False
